@@ -12,11 +12,43 @@ KNOWN_FILE = os.path.join(VERIF, "known_findings.jsonl")
 EVIDENCE_DIR = os.path.join(VERIF, "evidence")
 
 
-def norm_stmt(node, limit=140):
+KEEP_NAMES = {"self", "np", "numpy", "cls", "super", "True", "False", "None"}
+
+
+def canon(node):
+    """Copy of `node` with variable names replaced by v1, v2, ... in order of
+    first appearance (callee names, attributes and keyword names are kept), so
+    that obligation keys survive a consistent renaming of locals."""
+    import copy
+    t = copy.deepcopy(node)
+    callee_ids = set()
+    for n in ast.walk(t):
+        if isinstance(n, ast.Call) and isinstance(n.func, ast.Name):
+            callee_ids.add(id(n.func))
+    mapping = {}
+
+    class R(ast.NodeTransformer):
+        def visit_Name(self, n):
+            if id(n) in callee_ids or n.id in KEEP_NAMES:
+                return n
+            if n.id not in mapping:
+                mapping[n.id] = f"v{len(mapping) + 1}"
+            return ast.copy_location(ast.Name(id=mapping[n.id], ctx=n.ctx), n)
+
+        def visit_arg(self, n):
+            if n.arg not in mapping and n.arg not in KEEP_NAMES:
+                mapping[n.arg] = f"v{len(mapping) + 1}"
+            n.arg = mapping.get(n.arg, n.arg)
+            return n
+    # visit in source order so numbering is deterministic
+    return R().visit(t)
+
+
+def norm_stmt(node, limit=140, canonical=True):
     """Normalised source text of a statement/expression (no line numbers,
-    formatting independent)."""
+    formatting independent, local names canonicalised)."""
     try:
-        s = ast.unparse(node)
+        s = ast.unparse(canon(node) if canonical else node)
     except Exception:
         s = "?"
     s = " ".join(s.split())
@@ -30,7 +62,7 @@ def site_id(node, limit=90):
     full normalised text (line-number independent)."""
     import hashlib
     try:
-        full = " ".join(ast.unparse(node).split())
+        full = " ".join(ast.unparse(canon(node)).split())
     except Exception:
         full = "?"
     if len(full) <= limit:
